@@ -157,6 +157,14 @@ c07_g_styled!(c07_q_g_curved, 40, [
     (Ellipse::new(Point::new(0, 2), Size::new(6, 3)), both(1, StrokeAlignment::Center), (-5, -6)),
     (RoundedRectangle::with_equal_corners(Rectangle::new(Point::new(1, 0), Size::new(5, 4)), Size::new(2, 1)), both(1, StrokeAlignment::Inside), (-4, -3)),
 ]);
+// dotted rectangle strokes place their dots with floating-point steps: a half-integer step (side 17, dot
+// size 4: 6.5) must round the same way wherever the rectangle sits (offset into negative coordinates)
+fn dotted(w: u32, al: StrokeAlignment) -> PrimitiveStyle<Gray8> {
+    PrimitiveStyleBuilder::new().stroke_color(Gray8::new(2)).stroke_width(w).stroke_alignment(al).stroke_style(StrokeStyle::Dotted).build()
+}
+c07_g_styled!(c07_q_g_dotted_rect, 60, [
+    (Rectangle::new(Point::new(2, 3), Size::new(17, 17)), dotted(4, StrokeAlignment::Inside), (-30, -30)),
+]);
 c07_g_styled!(c07_q_g_thick_lines, 60, [
     (Line::new(Point::new(0, 0), Point::new(5, 2)), stroke(3), (-7, -3)),
     (Line::new(Point::new(1, 4), Point::new(4, -1)), stroke(2), (-3, -2)),
